@@ -4,10 +4,12 @@ from harness import worlds, ndefflow
 PROPERTY = "C01"
 
 
-def t2(sx, S, prefix, rsv, oldlens, lens, long):
+def t2(sx, S, prefix, rsv, oldlens, lens, long, nxp=None):
     oldlen = sx.pick("oldlen", oldlens)
     w = worlds.T2World(sx, S, prefix, [tuple(r) for r in rsv], oldlen,
-                       old_lt_80=long)
+                       old_lt_80=long, nxp=nxp)
+    if nxp is not None:
+        sx.reach("nxp_vendor_class")
     w.long_trick = long
     n = sx.pick("n", [x for x in lens_for(w.cap, lens)])
     return ndefflow.roundtrip(sx, w, n)
@@ -90,6 +92,18 @@ def partitions(tier):
             parts.append(dict(name="t2:%d:%s:short" % (S, prefix or "-"), fn="t2",
                               params=dict(S=S, prefix=prefix, rsv=rsv, oldlens=[0, 255],
                                           lens=[0, 1, 5], long=False)))
+    # ---- NXP products: the vendor class from activate() (GET_VERSION), with
+    # the factory lock control TLV (dynamic lock bytes behind the data area)
+    for nxp, rsv in (("NTAG213", (160, 2)), ("NTAG215", (520, 2)), ("NTAG216", (896, 2)),
+                     ("MF0UL21", (144, 2))):
+        if tier == "quick" and nxp in ("NTAG216",):
+            continue
+        parts.append(dict(name="t2:%s:short" % nxp, fn="t2",
+                          params=dict(S=0, prefix="L", rsv=[rsv], oldlens=[0, 3], lens=[0, 1, 4],
+                                      long=False, nxp=nxp)))
+        parts.append(dict(name="t2:%s:long" % nxp, fn="t2",
+                          params=dict(S=0, prefix="L", rsv=[rsv], oldlens=[0],
+                                      lens=[9, 254, 255, "cap-1", "cap", "cap+1"], long=True, nxp=nxp)))
     # ---- Type 1
     T1 = [("topaz", (0x11, 0x48), 120, "", []),
           ("static", (0x11, 0x00), 120, "N", []),
@@ -146,7 +160,7 @@ def partitions(tier):
 MUST_REACH = ["oversize_rejected", "empty_message_written", "three_byte_length",
               "message_fills_capacity", "rsv_inside_message", "rsv_before_ndef_tlv",
               "rsv_beyond_data_area", "rsv_at_end_of_data_area", "rsv_after_message",
-              "t1_message_spans_reserved_blocks"]
+              "t1_message_spans_reserved_blocks", "nxp_vendor_class"]
 BOUNDS = {"quick": "T2: data areas 48/496 bytes, 13 control-TLV layouts, boundary message lengths; all contents symbolic",
           "thorough": "T2: data areas 48 (every length)/496/872/2032"}
 OUTSIDE = ["data area sizes other than listed", "more than one lock- and one memory-control TLV"]
